@@ -148,9 +148,9 @@ def check_etcd(prop, tier, seed):
         work.cleanup()
 
 
-ROLES = dict(Readers={"r1", "r2"}, MaxCommits=2, SingleFlight=True, SetRaises=False, GenHist=False)
+ROLES = dict(Readers={"r1", "r2"}, MaxCommits=2, SingleFlight=True, SetRaises=True, Promotes=False, GenHist=False)   # (SetRaises: the code since the repair of D27)
 T_MON["C18"] = ["M_LeaderServes", "M_FollowerNeverWrites", "M_FollowerNeverStreamsOwnHistory", "M_FollowerForwards", "M_FollowerRejectsUnavailable",
-                "M_FollowerReadsAtLeaderRevision", "M_FollowerReadFailsWithoutLeader", "M_ProtocolReadServed", "M_FollowerAdoptsFetched"]
+                "M_FollowerReadsAtLeaderRevision", "M_FollowerReadFailsWithoutLeader", "M_ProtocolReadServed", "M_FollowerAdoptsFetched", "M_LeaderNotDerailedByLateSync"]
 T_MODULE["C18"] = "TraceRoles.tla"
 
 
@@ -232,6 +232,14 @@ def check_roles(prop, tier, seed):
         cov["mc_runs"].append(dict(module="Roles.tla", config="read protocol as implemented (single flight, plain store), 2 reads, 2 leader commits",
                                    counterexample_found=bool(rc["violated"]), note="explains known findings D11a / D11b; reproduced on the real revision syncer below"))
         log("MC Roles.tla: table invariants hold; protocol as implemented: counterexample %s" % ("found (D11)" if rc["violated"] else "NOT found"))
+        # a follower that wins the election while reads are under way: its revision must not move back
+        rp_ = tlc(work, "Roles.tla", cfg_constants(dict(ROLES, Promotes=True)) + "INIT PInit\nNEXT PNext\nVIEW PView\nPROPERTIES LeaderRevisionMonotone\nCHECK_DEADLOCK FALSE\n", timeout=900, name="mcpromote")
+        if rp_["violated"] or not rp_.get("ok"):
+            raise Undecided("TLC on Roles.tla (Promotes): %s %s" % (rp_["violated"], rp_["error"]))
+        cov["states"] += rp_["distinct"]; cov["transitions"] += rp_["states"]
+        rq_ = tlc(work, "Roles.tla", cfg_constants(dict(ROLES, Promotes=True, SetRaises=False)) + "INIT PInit\nNEXT PNext\nVIEW PView\nPROPERTIES LeaderRevisionMonotone\nCHECK_DEADLOCK FALSE\n", timeout=900, name="mcpromote2")
+        cov["mc_runs"].append(dict(module="Roles.tla", config="the follower wins the election while reads are under way (Promote, OwnCommit): LeaderRevisionMonotone",
+                                   distinct_states=rp_["distinct"], states_generated=rp_["states"], with_a_plain_store_counterexample_found=bool(rq_["violated"])))
         # the table on the real handlers
         d = work.sub("rolerun")
         traces = []
@@ -261,6 +269,14 @@ def check_roles(prop, tier, seed):
         not_exec = None
         if rep.get("obs_mismatch", 0) > rep.get("behaviours", 0) // 10:
             not_exec = "more than 10%% of the protocol behaviours could not be executed on the real syncer: %s" % (rep.get("mismatch_notes") or [])[:2]
+        # ... and that counterexample on the real syncer and the real backend
+        dd = work.sub("derailrun")
+        dtr, drp = os.path.join(dd, "derail.ndjson"), os.path.join(dd, "derail.json")
+        rcode, out = run([binp, "derailrun", "-out", dtr, "-report", drp], env=GOENV, timeout=120)
+        if rcode != 0 or not os.path.exists(drp):
+            raise Undecided("derailrun failed: " + (out or "")[-800:])
+        traces.append(dtr)
+        cov["replay"].append(dict(what="a follower read whose fetch from the old leader returns after the node has taken over and committed writes (real syncer, real backend)", runs=1))
         allt = traces + ptraces
         ntr, v = validate_all(work, allt, T_MON[prop], module="TraceRoles.tla", chunks=4)
         cov["traces_validated_against_impl"] = ntr
